@@ -557,7 +557,7 @@ static RETCODE adfBitmapAllocate ( struct AdfVolume * const vol )
 
     for ( unsigned i = 0 ; i < vol->bitmapSize ; i++ ) {
         vol->bitmapTable[i] = (struct bBitmapBlock*)
-            malloc ( sizeof(struct bBitmapBlock) );
+            calloc ( 1, sizeof(struct bBitmapBlock) );
 
         if ( vol->bitmapTable[i] == NULL) {
             free ( vol->bitmapBlocksChg );
